@@ -149,6 +149,12 @@ def reshape(req):
         raise webob.exc.HTTPConflict(
             'Unable to allocate inventory: %(error)s' % {'error': exc})
 
+    # Consumers auto-created for this request that were given no
+    # allocations (an empty allocations object) must not be left behind.
+    allocation.delete_consumers(
+        [consumer for consumer in new_consumers_created
+         if not allocations[consumer.uuid]['allocations']])
+
     req.response.status = 204
     req.response.content_type = None
     return req.response
